@@ -185,9 +185,11 @@ def main():
                 results.append(dict(name="seeded/" + name, property=prop, status="PATCH-DOES-NOT-APPLY", err=a.stderr[-300:])); print("seeded/" + name, "PATCH-DOES-NOT-APPLY"); restore(); continue
             rc, keys, secs, tail = run_check(prop, scale)
             restore()
-            ok = (rc == 1)
-            results.append(dict(name="seeded/" + name, property=prop, expected_exit=1, exit=rc, ok=ok, keys=keys[:6], seconds=round(secs, 1), tail=None if ok else tail))
-            print(f"{'OK  ' if ok else 'MISS'} seeded/{name:51s} {prop} exit={rc} expected=1 {secs:5.1f}s {keys[:2]}")
+            # Property-preserving changes (meta.expected_exit == 0) must NOT alarm.
+            expect = int(meta.get("expected_exit", 1))
+            ok = (rc == expect)
+            results.append(dict(name="seeded/" + name, property=prop, expected_exit=expect, exit=rc, ok=ok, keys=keys[:6], seconds=round(secs, 1), tail=None if ok else tail))
+            print(f"{'OK  ' if ok else ('MISS' if expect else 'FALSE-ALARM')} seeded/{name:51s} {prop} exit={rc} expected={expect} {secs:5.1f}s {keys[:2]}")
     finally:
         restore()
     os.makedirs(ROOT + "/sensitivity", exist_ok=True)
